@@ -168,6 +168,7 @@ struct OpSlot {
     int64_t fired[F_KINDS] = {0};
     std::vector<HeapViolation> heapV;
     const SharedInput *shared = nullptr;
+    int64_t tailResolved = 0;      // fault plans with a negative index ("n-th request from the last"): the index it means
     std::vector<int64_t> nrSteps;  // solo steps at which the call returned from a non-re-entrant libc facility
     bool roundChanged = false;  // any per-thread ambient state (FP control, signal mask/dispositions) left changed
     std::string ambWhat;
@@ -209,11 +210,13 @@ uint64_t g_opIdCounter = 1ULL << 40;
 // the fault plan an operation really runs with.  In the sanitizer builds no allocation is failed inside a function
 // that is not specified to survive it: the unchanged tree dereferences NULL there, which UBSan reports fatally
 // (cannot be contained) and which says nothing about C18.
-inline FaultPlan planFor(const Op &op) {
+inline FaultPlan planFor(const Op &op, int64_t tailResolved = 0) {
 #ifdef SIM_DELEGATE_MALLOC
     if (!fnIsC17(op.fn)) return FaultPlan();
 #endif
-    return op.fault;
+    FaultPlan p = op.fault;
+    if (p.n < 0 && tailResolved > 0) p.n = tailResolved;  // "(-n)-th request from the last" of the fault-free execution
+    return p;
 }
 
 // One case = programs + knobs.  prepare() runs the attribution pre-run and the
@@ -302,7 +305,21 @@ void C18Exec::prepare(C18Outcome &out) {
             ExecOpts eo;
             eo.shared = s.shared;
             eo.sealInputs = true;
-            ctx.begin(t, ++g_opIdCounter, fillSeedOf(cs.caseSeed, t, (int)i), planFor(op));
+            if (op.fault.kind != F_NONE && op.fault.n < 0) {
+                // a plan that counts from the end needs the number of requests of the fault-free execution
+                OpHeapCtx cnt;
+                cnt.begin(t, ++g_opIdCounter, fillSeedOf(cs.caseSeed, t, (int)i), FaultPlan());
+                schedRunOnFreshThread([&]() {
+                    heapBind(&cnt);
+                    Result r0 = execOp(SIM, op, eo);
+                    heapBind(nullptr);
+                    if (r0.status != CALL_RETURNED) heapAbandonOp(&cnt);
+                });
+                s.tailResolved = std::max<int64_t>(1, cnt.allocCount + 1 + op.fault.n);
+                trapTake();
+                trapRearm();
+            }
+            ctx.begin(t, ++g_opIdCounter, fillSeedOf(cs.caseSeed, t, (int)i), planFor(op, s.tailResolved));
             Ambient amb0, amb1;
             // "alone" = as the first call of a thread without history (fresh thread-local storage, errno 0)
             schedRunOnFreshThread([&]() {
@@ -437,7 +454,7 @@ void C18Exec::concurrent(const SchedConfig &scIn, C18Outcome &out) {
             // errno holds whatever earlier calls on this thread left in it; alone the call starts with 0
             eo.entryErrno = entryErrnoFor(mix2(cs.caseSeed, op.hash()) + (uint64_t)t);
             OpHeapCtx &c = ctxs[(size_t)t];
-            c.begin(t, ++g_opIdCounter, fillSeedOf(cs.caseSeed, t, (int)i), planFor(op));
+            c.begin(t, ++g_opIdCounter, fillSeedOf(cs.caseSeed, t, (int)i), planFor(op, s.tailResolved));
             heapBind(&c);
             Ambient amb0 = ambientGet(false);
             schedSetOpBudget(s.budget);
@@ -697,10 +714,16 @@ C18Case genCase(uint64_t runSeed, const TierCfg &cfg) {
         for (int i = 0; i < L; i++) {
             Op op = gen.anyOp(scale, stormFn[0] >= 0 ? stormFn[rng.below(2)] : -1);
             if (faults && fnAllocates(op.fn) && rng.chance(0.35)) {
-                switch (rng.below(3)) {
+                switch (rng.below(4)) {
                     case 0:
                         op.fault.kind = F1_NTH;
                         op.fault.n = rng.range(1, 4);
+                        break;
+                    case 3:
+                        // one of the LAST requests of the call (negative index = counted from the end): clean-up and
+                        // post-processing stages that the early requests never reach
+                        op.fault.kind = rng.chance(0.7) ? F1_NTH : F2_FROM_NTH;
+                        op.fault.n = -rng.range(1, 8);
                         break;
                     case 1:
                         op.fault.kind = F2_FROM_NTH;
